@@ -27,7 +27,8 @@ CHECKS = {
          "walks the listing following the server's continuation and TLC (spec/TraceWalk.tla) validates every recorded "
          "walk: page size, strict order, no skip/repeat, each common prefix once, IsTruncated=false only at the end, "
          "termination bound. Arbitrary markers and the non-paginating fallback (option on/off) are single-page tours.",
-         "trace validation of recorded paginated walks by TLC + single-page marker tours",
+         "trace validation of recorded paginated walks by TLC (small scopes exhaustively; stores of 1050 keys with the "
+         "server's default page limit, on the paginating and the fallback backends) + single-page marker tours",
          "walk store contents come from the specification's snapshot; continuation is whatever the server returns"),
  "C05": ("model_checking",
          "Every transition of one key's version history (<=2 version-creating steps with all operations, <=3 with the "
@@ -43,21 +44,25 @@ CHECKS = {
          "every part list of <=2 entries in any order over known/unknown numbers with current/stale ETags; thorough: "
          "3 parts, lists <=3, 2 keys) replayed on mem, bolt, multi-fs; completion ETag computed from the part digests; "
          "audits re-read the object, the parts and the uploads after every step.",
-         "TLC transition tours of the multipart model replayed; RejectedUnchanged action property",
+         "TLC transition tours of the multipart model replayed; RejectedUnchanged action property; state traces of the "
+         "uploader (hook) validated by TLC (TraceUp.tla) for the repository's tests and the tours after refusals; a "
+         "1003-part upload completed and read back (TraceConc.tla)",
          "abstract part numbers mapped order-preservingly into 1..10000 with gaps"),
  "C13": ("model_checking",
          "Version listings are audited after every mutating transition of a 2-key versioned model (each version once, "
          "key order, exactly one IsLatest = the entry an unqualified read serves, sizes/ETags, 'null' ids for "
          "never-versioned buckets); for every reachable state x prefix/delimiter x max-keys 1..n+1 a walk with the "
          "server's key/version markers is recorded and validated by TLC (TraceWalk).",
-         "TLC tours with version-listing audits + trace validation of recorded version-listing walks",
+         "TLC tours with version-listing audits + trace validation of recorded version-listing walks (small scopes "
+         "exhaustively; a key with 1005 versions under the default page limit; a 70-version key at every small page size)",
          "order inside a key followed; walks compare against the (audited) unpaginated listing"),
  "C14": ("model_checking",
          "ListParts/ListMultipartUploads single pages are audited after every transition of the multipart model; for "
          "every reachable state (3 keys sharing a prefix, <=3-4 uploads; part numbers with gaps) x prefix/delimiter x "
          "page size 1..n+2 walks with the server-returned markers are recorded and validated by TLC (TraceWalk): exact "
          "order by key then initiation, true part numbers/sizes/ETags, each entry once.",
-         "TLC tours with audits + trace validation of recorded walks",
+         "TLC tours with audits + trace validation of recorded walks (small scopes exhaustively; 1008 parts incl. part "
+         "numbers to 10000 and 1006 uploads under the default page limits) + uploader state traces (TraceUp.tla)",
          "arbitrary (not server-returned) upload markers are outside the property"),
  "C11": ("model_checking",
          "For every object size 0..6 (thorough 0..12) TLC enumerates every closed/open/suffix range with bounds in "
